@@ -18,6 +18,7 @@
 -/
 import Babylon.GC.LiveRegions
 import Babylon.GC.LiveEnabled
+import Babylon.GC.View
 
 namespace Babylon.Properties.C10
 open Babylon.GC Babylon.Core
@@ -375,6 +376,47 @@ reads the current global version -/
 theorem gc_no_stale_persists (c : Cfg) (s s' : State) (l : Lbl) (hq : Quiet s) (hn : NoStale s)
     (hl : l.retiring = false) (h : step c s l = some s') : NoStale s' :=
   noStale_step hq hn hl h
+
+/-! ### view level: what the collector has seen when it invokes a reclaimer -/
+
+/-- **`gc_reclaim_view`** (release/acquire view model of Core/MemView.lean, every execution, stale
+reads included): the retiring thread `r` pushes (store of order `oPush`, releasing, to a queue slot
+word) at memory `mR` and the collector `c` pops that message (load of order `oPop`, acquiring); the
+reader `d` ends its region (store of order `oEnd`, releasing, to its epoch slot) at `mD` and the
+collector's low-water-mark scan reads that message (load of order `oScan`, acquiring); whatever else
+happens in between and afterwards (`Mem.Ext`), at the moment `mF` the collector invokes the reclaimer
+the retirer's view at `retire()` — its unlinking writes — and the reader's view at its region end —
+all its accesses inside the region — are contained in the collector's view: destroying the object
+cannot race with them.  The code's orders for the region end and the scan satisfy the hypotheses
+(`gc_view_epoch_orders_ok`); with either of them relaxed the conclusion fails (negative controls). -/
+theorem gc_reclaim_view (mR m2 m3 mD m4 m5 mF : Core.MemView.Mem GC.View.Loc) (r d c i j : Nat)
+    (oPush oPop oEnd oScan : Core.Ord) (v v' idle w' : Nat)
+    (hPush : oPush.releases = true) (hPop : oPop.acquires = true)
+    (hEnd : oEnd.releases = true) (hScan : oScan.acquires = true)
+    (hext1 : (mR.write r (.qslot i) oPush v).Ext m2)
+    (hpop : m2.read c (.qslot i) oPop (mR.len (.qslot i)) = some (m3, v'))
+    (hext2 : (mD.write d (.eslot j) oEnd idle).Ext m4)
+    (hscan : m4.read c (.eslot j) oScan (mD.len (.eslot j)) = some (m5, w'))
+    (hF1 : m3.Ext mF) (hF2 : m5.Ext mF) :
+    (mR.tv r).cur ≤ (mF.tv c).cur ∧ (mD.tv d).cur ≤ (mF.tv c).cur :=
+  GC.View.gc_reclaim_view mR m2 m3 mD m4 m5 mF r d c i j oPush oPop oEnd oScan v v' idle w'
+    hPush hPop hEnd hScan hext1 hpop hext2 hscan hF1 hF2
+
+theorem gc_view_epoch_orders_ok :
+    Gen.Epoch.unlockStoreOrd.releases = true ∧ Gen.Epoch.releaseStoreOrd.releases = true ∧
+    Gen.Epoch.scanSlotOrd.acquires = true := GC.View.gc_epoch_orders_ok
+
+/-- positive and negative controls (concrete view-model executions, `decide`): with the code's orders a
+reclaimer cannot read the object's state from before the reader's / retirer's write; with the
+region-end store, the scan load, the push or the pop relaxed it can -/
+theorem gc_view_controls :
+    GC.View.regionRun Gen.Epoch.unlockStoreOrd Gen.Epoch.scanSlotOrd 0 = none ∧
+    GC.View.regionRun .rlx Gen.Epoch.scanSlotOrd 0 = some (99, 0) ∧
+    GC.View.regionRun Gen.Epoch.unlockStoreOrd .rlx 0 = some (99, 0) ∧
+    GC.View.retireRun .rel .acq 0 = none ∧
+    GC.View.retireRun .rlx .acq 0 = some (1, 0) ∧ GC.View.retireRun .rel .rlx 0 = some (1, 0) :=
+  ⟨GC.View.gc_view_positive.1, GC.View.gc_view_negative_relaxed_region_end, GC.View.gc_view_negative_relaxed_scan,
+   GC.View.gc_view_positive.2.2.1, GC.View.gc_view_negative_relaxed_push, GC.View.gc_view_negative_relaxed_pop⟩
 
 /-! ### non-vacuity and the pre-repair loop -/
 
